@@ -11,7 +11,7 @@ use zvharness::*;
 fn a(v: &[&str]) -> Vec<String> { v.iter().map(|s| s.to_string()).collect() }
 
 const TAGS: [(&str, [u64; 3]); 4] = [("1.2.3", [1, 2, 3]), ("0.0.0", [0, 0, 0]), ("v10.20.30", [10, 20, 30]), ("1.0.4294967294", [1, 0, 4294967294])];
-const BRANCHES: [Option<&str>; 12] = [None, Some("main"), Some("develop"), Some("release/1"), Some("release/x"), Some("releasex"), Some("feature/7/foo"), Some("99"), Some("a/b/10"), Some("fé"), Some("staging"), Some("qa/5")];
+const BRANCHES: [Option<&str>; 14] = [None, Some("main"), Some("develop"), Some("release/1"), Some("release/x"), Some("releasex"), Some("feature/7/foo"), Some("99"), Some("a/b/10"), Some("fé"), Some("staging"), Some("qa/5"), Some("release/hotfix/7"), Some("release/hotfix/payments")];
 /// presets that omit the pre-release part by the user's explicit choice: upper bound is non-strict
 const NO_PRE: [&str; 2] = ["standard-base", "standard-base-context"];
 /// presets that print the post counter (commit chains must be strictly increasing)
@@ -23,6 +23,8 @@ fn rule_sets() -> Vec<(&'static str, Vec<Rule>)> {
         ("staging+qa", vec![Rule { pattern: "staging".into(), label: "beta", number: Some(2), mode: "commit" }, Rule { pattern: "qa/*".into(), label: "rc", number: None, mode: "tag" }]),
         ("star-first", vec![Rule { pattern: "*".into(), label: "alpha", number: None, mode: "commit" }]),
         ("a-shadows-ab", vec![Rule { pattern: "a/*".into(), label: "beta", number: None, mode: "commit" }, Rule { pattern: "a/b/*".into(), label: "rc", number: None, mode: "tag" }]),
+        // a wildcard rule whose directory part has two segments, in commit mode, ahead of broader rules in tag mode
+        ("nested-first", vec![Rule { pattern: "release/hotfix/*".into(), label: "beta", number: None, mode: "commit" }, Rule { pattern: "release/*".into(), label: "rc", number: None, mode: "tag" }, Rule { pattern: "*".into(), label: "alpha", number: None, mode: "tag" }]),
     ]
 }
 
@@ -128,12 +130,17 @@ fn main() {
     let s1 = cases.par_iter().map(|c| { let mut st = Stats::default(); judge(&ctx, c, &sets, &mut st); st }).reduce(Stats::default, Stats::merge);
 
     // (ii) distance chains in commit post-mode: strictly increasing where the preset prints the post counter
-    let chain_jobs: Vec<(usize, usize, usize, &'static str, &'static str)> = { let mut v = vec![]; for tag in 0..TAGS.len() { for branch in 0..BRANCHES.len() { for rules in 0..sets.len() { for preset in zv::STANDARD_PRESETS { for fmt in ["semver", "pep440"] { v.push((tag, branch, rules, preset, fmt)); } } } } } v };
-    let s2 = chain_jobs.par_iter().map(|&(tag, branch, rules, preset, fmt)| {
+    // (also without --post-mode, where the first matching rule of the set says commit mode)
+    let rule_mode_is_commit = |branch: usize, rules: usize| -> bool {
+        let e = flow::expect(&zvharness::refmodel::ren::RVars { major: Some(1), minor: Some(0), patch: Some(0), ..Default::default() }, &sets[rules].1, &flow::FlowInput { branch: BRANCHES[branch].map(String::from), distance: Some(1), hash_len: 5, ..Default::default() }, 0);
+        e.active && e.dev.is_none()
+    };
+    let chain_jobs: Vec<(usize, usize, usize, &'static str, &'static str, Option<&'static str>)> = { let mut v = vec![]; for tag in 0..TAGS.len() { for branch in 0..BRANCHES.len() { for rules in 0..sets.len() { for preset in zv::STANDARD_PRESETS { for fmt in ["semver", "pep440"] { v.push((tag, branch, rules, preset, fmt, Some("commit"))); if rule_mode_is_commit(branch, rules) { v.push((tag, branch, rules, preset, fmt, None)); } } } } } } v };
+    let s2 = chain_jobs.par_iter().map(|&(tag, branch, rules, preset, fmt, mode)| {
         let mut st = Stats::default();
         let mut prev: Option<(u64, String)> = None;
         for d in 0..=6u64 {
-            let c = Case { tag, branch, distance: Some(d), dirty_flag: 0, mode: Some("commit"), rules, hash_len: None, label: None, post: None, preset, fmt };
+            let c = Case { tag, branch, distance: Some(d), dirty_flag: 0, mode, rules, hash_len: None, label: None, post: None, preset, fmt };
             let Some(out) = judge(&ctx, &c, &sets, &mut st) else { continue };
             if let Some((pd, pv)) = &prev {
                 st.inc("chain_steps");
